@@ -496,6 +496,117 @@ def confine_resolve(u: U):
             "a path outside the root is answered with 404")
 
 
+@unit("C15", "conditional.precedence", functions=[f"{FR}:FileResponse._make_response"])
+def conditional_precedence(u: U):
+    """_make_response against RFC 9110 13.2.2 for every combination of If-Match / If-Unmodified-Since / If-None-Match /
+    If-Modified-Since (each absent or present), every outcome of the entity-tag comparisons and every ordering of the
+    file's mtime and the two dates: 412 / 304 / send-the-file is the one the precedence rules give - in particular
+    If-Modified-Since is ignored when If-None-Match is present, If-Unmodified-Since when If-Match is."""
+    import importlib
+
+    from pyvc import instrument
+
+    instrument._ensure_repo_on_path()
+    M = importlib.import_module(FR)
+    mtime = u.int("st_mtime")
+    etag_calls = []
+    im_ok, inm_hit = u.bool("if_match.matches"), u.bool("if_none_match.matches")
+
+    class _St:
+        st_mtime = mtime
+        st_mtime_ns = 0x10
+        st_size = 5
+
+    st = _St()
+
+    class _Date:
+        def __init__(self, name):
+            self.t = u.int(name)
+
+        def timestamp(self):
+            return self.t
+
+    has = {k: u.choose(2, k) == 1 for k in ("if_match", "if_unmodified_since", "if_none_match", "if_modified_since")}
+    IM, INM = ("ETAGS-IM",), ("ETAGS-INM",)
+    ius, ims = _Date("if_unmodified_since.t"), _Date("if_modified_since.t")
+    req = u.obj("Request", {"if_match": IM if has["if_match"] else None,
+                            "if_unmodified_since": ius if has["if_unmodified_since"] else None,
+                            "if_none_match": INM if has["if_none_match"] else None,
+                            "if_modified_since": ims if has["if_modified_since"] else None}, {}, shared=False)
+    opened = []
+
+    class _F:
+        def fileno(self):
+            return 3
+
+    class _Path:
+        def open(self, mode):
+            opened.append(mode)
+            return _F()
+
+        def __bool__(self):
+            return True
+
+    def etag_match(self_or_value, *a, weak):
+        # called as self._etag_match(etag_value, etags, weak=...): the comparison itself is unit conditional.etag_match
+        etags = a[-1]
+        etag_calls.append((etags, weak))
+        return im_ok if etags is IM else inm_hit
+
+    class _Os:
+        @staticmethod
+        def stat(fd):
+            return st
+
+    r = u.obj("FileResponse", {}, {"_get_file_path_stat_encoding": lambda self, ae: (_Path(), st, None),
+                                   "_etag_match": lambda self, v, etags, weak: etag_match(v, etags, weak=weak)}, shared=False)
+    f = u.load(FR, "FileResponse._make_response", globals={"os": _Os})
+    out = u.call(f, r, req, "identity")
+    u.check("C15.cond.total", out.ok, f"{out.exc!r}")
+    if not out.ok:
+        return
+    res = out.value[0]
+    R = M._FileResponseResult
+    # RFC 9110 13.2.2 precedence
+    step1 = has["if_match"] and Not(im_ok)
+    step2 = (not has["if_match"]) and has["if_unmodified_since"] and (mtime > ius.t)
+    step3 = has["if_none_match"] and inm_hit
+    step4 = (not has["if_none_match"]) and has["if_modified_since"] and (mtime <= ims.t)
+    pre_failed = Or(step1, step2)
+    not_mod = And(Not(pre_failed), Or(step3, step4))
+    want_412, want_304 = pre_failed, not_mod
+    u.check("C15.cond.precedence", And(Implies(want_412, res is R.PRE_CONDITION_FAILED), Implies(want_304, res is R.NOT_MODIFIED),
+                                       Implies(And(Not(want_412), Not(want_304)), res is R.SEND_FILE)),
+            "412 / 304 / 200-206 follow the RFC 9110 13.2.2 order: If-Match, else If-Unmodified-Since; then If-None-Match, "
+            "else If-Modified-Since (a date condition is ignored when its entity-tag counterpart is present)",
+            witness={"present": {k: v for k, v in has.items()}, "if_match.matches": im_ok, "if_none_match.matches": inm_hit,
+                     "mtime": mtime, "if_unmodified_since": ius.t, "if_modified_since": ims.t, "result": str(res)})
+    u.check("C15.cond.etag_strength", all((et is IM and wk is False) or (et is INM and wk is True) for et, wk in etag_calls),
+            "If-Match uses the strong comparison, If-None-Match the weak one (RFC 9110 13.1.1 / 13.1.2)")
+    u.check("C15.cond.file_opened_only_to_send", (len(opened) == 1) == (res is R.SEND_FILE),
+            "the file is opened exactly when it is going to be sent")
+
+
+@unit("C15", "conditional.etag_match", functions=[f"{FR}:FileResponse._etag_match"])
+def conditional_etag_match(u: U):
+    """_etag_match for every tuple of up to 3 entity tags over the three value classes that matter ('*', the file's tag,
+    any other tag) x weak flag: '*' alone matches anything; otherwise some listed tag equals the file's tag, weak tags
+    counting only under the weak comparison"""
+    from pyvc.registry import width
+
+    from aiohttp.helpers import ETAG_ANY, ETag
+
+    n = u.choose(width(3, 4) + 1, "n_etags")
+    vals = ("FILE-TAG", "OTHER", ETAG_ANY)
+    etags = tuple(ETag(value=vals[u.choose(3, f"etag{i}.value")], is_weak=u.choose(2, f"etag{i}.weak") == 1) for i in range(n))
+    weak = u.choose(2, "weak_comparison") == 1
+    f = u.load(FR, "FileResponse._etag_match")
+    out = u.call(f, "FILE-TAG", etags, weak=weak)
+    star = n == 1 and etags[0].value == ETAG_ANY
+    want = star or any(e.value == "FILE-TAG" and (weak or not e.is_weak) for e in etags)
+    u.check("C15.cond.etag_match", out.ok and out.value is want, f"etags={etags} weak={weak}: got {out!r}, RFC 9110 8.8.3.2 says {want}")
+
+
 @unit("C15", "confine.handle", functions=[f"{UD}:StaticResource._handle"])
 def confine_handle(u: U):
     """_handle rejects absolute / drive / UNC file names before joining and only serves through
